@@ -6,6 +6,7 @@ import (
 	"sync"
 
 	"github.com/jub0bs/cors"
+	"github.com/jub0bs/cors/internal/zzverif/ref"
 	"github.com/jub0bs/cors/internal/zzverif/vlib"
 )
 
@@ -18,7 +19,9 @@ var (
 	smB       = CfgLit{Origins: []string{"http://b.example:*"}, Credentialed: true, PNA: true, TolInsecure: true, Methods: []string{"DELETE"}, RequestHeaders: []string{"X-C", "Authorization"}, ResponseHeaders: []string{"X-S", "X-T"}, MaxAge: -1, Status: 200}
 	smC       = CfgLit{Origins: []string{"*"}, Methods: []string{"*"}, RequestHeaders: []string{"*"}, ResponseHeaders: []string{"*"}}
 	smInvalid = CfgLit{Origins: []string{"https://c.example", "https://c.example/path"}, Methods: []string{"QUERY"}, MaxAge: 10}
-	smCfgs    = map[string]CfgLit{"A": smA, "B": smB, "C": smC}
+	smD       = CfgLit{Origins: []string{"https://d.example", "https://a.example"}, Credentialed: true, Methods: []string{"PUT", "*"}, RequestHeaders: []string{"X-Trace-Id", "*", "x-a"}, ResponseHeaders: []string{"X-R"}, MaxAge: 600}
+	smE       = CfgLit{Origins: []string{"https://a.example"}, RequestHeaders: []string{"Authorization", "*", "X-B"}, Methods: []string{"*"}, PNANoCORS: true}
+	smCfgs    = map[string]CfgLit{"A": smA, "B": smB, "C": smC, "D": smD, "E": smE}
 )
 
 type smOp struct {
@@ -107,7 +110,7 @@ var (
 func smEnsure() { smOnce.Do(smPrepare) }
 
 func smPrepare() {
-	smSuite = suiteFor(smA, smB, smC)
+	smSuite = suiteFor(smA, smB, smC, smD, smE)
 	// the state-machine checks observe the whole suite after every step of every history: keep it to a few
 	// hundred requests (deterministic stride; the first block with the non-CORS probes is kept whole)
 	const maxSuite = 360
@@ -121,7 +124,7 @@ func smPrepare() {
 		}
 		smSuite = thin
 	}
-	for _, cfg := range []string{"", "A", "B", "C"} {
+	for _, cfg := range []string{"", "A", "B", "C", "D", "E"} {
 		for _, d := range []bool{false, true} {
 			if cfg == "" && d {
 				continue
@@ -219,6 +222,32 @@ func c09Diag(name string, r vlib.Req) *vlib.Failure {
 	case a.HandlerCalls != b.HandlerCalls || fmt.Sprint(a.Hdr["Vary"]) != fmt.Sprint(b.Hdr["Vary"]) || a.Body != b.Body:
 		why = "handler invocation, Vary or body differ"
 	case a.Status/100 == 2:
+		// the debug-mode rendering of Access-Control-Allow-Headers must still grant every requested name
+		if names, _, ok := ref.ExtractList(b.Hdr, "Access-Control-Allow-Headers"); ok {
+			star := false
+			for _, n := range names {
+				if n == "*" {
+					star = true
+				}
+			}
+			for _, line := range r.Hdr["Access-Control-Request-Headers"] {
+				for _, el := range strings.Split(line, ",") {
+					el = strings.Trim(el, " \t")
+					if el == "" {
+						continue
+					}
+					found := star && !smCfgs[name].Credentialed && !strings.EqualFold(el, "authorization")
+					for _, n := range names {
+						if strings.EqualFold(n, el) {
+							found = true
+						}
+					}
+					if !found {
+						why = "a preflight that succeeds with debug off is answered in debug mode with an Access-Control-Allow-Headers value that does not cover the requested name " + el
+					}
+				}
+			}
+		}
 		delete(a.Hdr, "Access-Control-Allow-Headers")
 		delete(b.Hdr, "Access-Control-Allow-Headers")
 		if a.Sig() != b.Sig() {
@@ -360,7 +389,7 @@ func checkC09(c *vlib.Ctx) (string, string) {
 			return levelMC, rule
 		}
 	}
-	for _, name := range []string{"A", "B", "C"} {
+	for _, name := range []string{"A", "B", "C", "D", "E"} {
 		for i := range smSuite {
 			r := smSuite[i]
 			c.Transitions.Add(2)
